@@ -45,6 +45,7 @@ impl Method for WMA {
 		&&& out@ == WMA::def(post.window.view())
 	}
 //@extract src/methods/wma.rs impl[Method for WMA]::new
+	ensures (r is Ok) == (length != 0 && length != PeriodType::MAX),
 //@hint before match length
 	proof {
 		if length > 0 {
